@@ -134,15 +134,22 @@ type execResult struct {
 // choice 0 (keep running the current thread if it is enabled, else the lowest id).
 // buildShared materialises the value. Variants 0/1 build the struct field by field (exact-size slices); variants
 // 2/3 decode the reference encoding with the generated decoder, the way shared messages usually come to be
-// (slices grown by append, spare capacity); variants 4/5 add the nil artefacts plain Go code can build.
+// (slices grown by append, spare capacity); variants 4/5 add the nil artefacts plain Go code can build. Every variant
+// but 0 holds unknown records out of field-number order (top level and singular sub-messages).
 func buildShared(d protoreflect.Message, variant int) proto.Message {
-	if variant < 2 {
+	if variant == 0 {
 		return enum.BuildGo(d)
+	}
+	if variant == 1 {
+		g := enum.BuildGo(d)
+		addUnknowns(g)
+		return g
 	}
 	if variant == 5 {
 		// every singular google.protobuf.Any field carries a payload of this very (pulsar) type whose unknown records are
 		// separated by known fields: JSON marshalling decodes that payload out of the shared message's own bytes
 		g := enum.BuildGo(d)
+		addUnknowns(g)
 		md := d.Descriptor()
 		ua := enum.UnknownAlphabet(md, enum.Reduced)
 		inner, _ := proto.MarshalOptions{Deterministic: true}.Marshal(richValue(md, 0).Interface())
@@ -164,6 +171,7 @@ func buildShared(d protoreflect.Message, variant int) proto.Message {
 		// what plain Go code can build: a nil element in every message list, a nil value in every message map, the first
 		// message-kind member of every oneof selected with nil inside its wrapper
 		g := enum.BuildGo(d)
+		addUnknowns(g)
 		fs := d.Descriptor().Fields()
 		doneOneof := map[string]bool{}
 		for i := 0; i < fs.Len(); i++ {
@@ -183,11 +191,37 @@ func buildShared(d protoreflect.Message, variant int) proto.Message {
 	if err != nil {
 		panic(err)
 	}
+	// unknown records around the known ones, the higher field number first
+	hi, lo := unknownPair(d.Descriptor())
+	b = append(append(append([]byte(nil), hi...), b...), lo...)
 	g := enum.NewGo(d.Descriptor())
 	if err := proto.Unmarshal(b, g); err != nil {
 		panic(err)
 	}
 	return g
+}
+
+// unknownPair: two unknown records of md, the first with the higher field number (a shared message received from a
+// newer peer holds its unknown records in arrival order, which need not be field-number order).
+func unknownPair(md protoreflect.MessageDescriptor) (hi, lo []byte) {
+	ua := enum.UnknownAlphabet(md, enum.Boundary)
+	return ua[3], ua[1]
+}
+
+// addUnknowns gives g and every populated singular message field of g out-of-order unknown records.
+func addUnknowns(g proto.Message) {
+	m := g.ProtoReflect()
+	hi, lo := unknownPair(m.Descriptor())
+	m.SetUnknown(append(append([]byte(nil), hi...), lo...))
+	m.Range(func(fd protoreflect.FieldDescriptor, v protoreflect.Value) bool {
+		if fd.Message() != nil && !fd.IsList() && !fd.IsMap() {
+			if sub := v.Message(); sub.IsValid() {
+				h2, l2 := unknownPair(sub.Descriptor())
+				sub.SetUnknown(append(append([]byte(nil), h2...), l2...))
+			}
+		}
+		return true
+	})
 }
 
 func hasAnyField(md protoreflect.MessageDescriptor) bool {
@@ -477,10 +511,10 @@ func runScheduler(h *hz.H) {
 						continue
 					}
 					v := 2 * ((i + j) % 3)
-				if (alpha[i].name == "protojson.Marshal" || alpha[j].name == "protojson.Marshal") && hasAnyField(md) {
-					v = 5
-				}
-				jobs = append(jobs, job{md, v, [][]readOp{{alpha[i]}, {alpha[j]}}, 2, 6000})
+					if (alpha[i].name == "protojson.Marshal" || alpha[j].name == "protojson.Marshal") && hasAnyField(md) {
+						v = 5
+					}
+					jobs = append(jobs, job{md, v, [][]readOp{{alpha[i]}, {alpha[j]}}, 2, 6000})
 				}
 			}
 		}
